@@ -136,12 +136,12 @@ theorem encPostFilter_ext (cfg : EncCfg) (totE tv : Int) (s : St) : Ext s (encPo
   · exact Ext.refl s
 
 /-- The post-filter block.  `htap`: when the filter is on, the tapset — which the encoder writes without a budget
-    test — still passes the decoder's test `tell+2 <= total_bits` (guaranteed by `nbAvailableBytes > 12*C`). -/
+    test — still passes the decoder's test `tell+2 <= total_bits` (guaranteed by `nbAvailableBytes > 12*C`); `s3` is the state in front of the tapset. -/
 theorem postfilter_sync {w : World} {P0 : List Op} {s : St} {d : Dec} (h : Here w P0 s d) (cfg : EncCfg)
     (totE totD tv : Int)
     (hp : w.IsPrefix (P0 ++ (encPostFilter cfg totE tv s).2.ops))
     (hbud : (tv + 16 ≤ totE) ↔ (tv + 16 ≤ totD))
-    (htap : ∀ (s3 : St) (d3 : Dec), Here w P0 s3 d3 → Ext s3 (encPostFilter cfg totE tv s).2 →
+    (htap : ∀ (s3 : St) (d3 : Dec), Here w P0 s3 d3 → (∃ op, (encPostFilter cfg totE tv s).2.ops = s3.ops ++ [op]) →
       (encPostFilter cfg totE tv s).1.on ≠ 0 → tell s3.e + 2 ≤ totD) :
     let r := Opus.CeltSyms.readPostFilter cfg.start totD tv d
     let e := encPostFilter cfg totE tv s
@@ -186,7 +186,7 @@ theorem postfilter_sync {w : World} {P0 : List Op} {s : St} {d : Dec} (h : Here 
       obtain ⟨f1, f2⟩ := d2.pop.emit_icdf s4.pop.1.toNat Opus.CeltSymsFrozen.tapsetIcdf 2 hp
       -- the decoder's tapset test
       obtain ⟨t4, _, _, _⟩ := d2.tells p4
-      have hroom := htap s4 _ d2 x45 (by decide)
+      have hroom := htap s4 _ d2 ⟨_, rfl⟩ (by decide)
       simp only [a1, ne_eq, Nat.succ_ne_zero, not_false_eq_true, if_true, Opus.CeltSyms.readPostFilterOn, b1, c1, d1,
         t4, hroom, f1]
       exact ⟨trivial, trivial, trivial, trivial, trivial, f2, Or.inl trivial⟩
